@@ -6,6 +6,8 @@
    (UTC starts, journeys in parallel, device energy, job occurrences / averages / data per usage pattern and
    across) is compared exactly with EFNumeric by TLC, and the conservation theorems are evaluated on the
    observed values themselves.
+   Off the lattice: random systems whose usage patterns share journeys and live in zones with half-hour / 45-minute offsets --
+   each *_across_usage_patterns series of every job must be the sum of its per-usage-pattern entries, instant by instant (AcrossSums).
 3. a finer time lattice (minutes, seconds, milliseconds) for the two building blocks
    compute_nb_avg_hourly_occurrences and return_shifted_hourly_quantities, called directly.
 """
@@ -44,6 +46,55 @@ def call_events(ns, rng, n, tid0):
     return events
 
 
+def across_events(ns, rng, n, tid0):
+    """random systems whose usage patterns live in zones with whole-hour, half-hour and 45-minute offsets and share journeys:
+    for every job, each of the four *_across_usage_patterns series against its per-usage-pattern entries, instant by instant"""
+    import math
+    from .. import gen
+    events = []
+    pairs = [("hourly_occurrences_per_usage_pattern", "hourly_occurrences_across_usage_patterns"),
+             ("hourly_avg_occurrences_per_usage_pattern", "hourly_avg_occurrences_across_usage_patterns"),
+             ("hourly_data_transferred_per_usage_pattern", "hourly_data_transferred_across_usage_patterns"),
+             ("hourly_data_stored_per_usage_pattern", "hourly_data_stored_across_usage_patterns")]
+
+    def ser(v):
+        p = efx.project_value(ns, v) if not isinstance(v, ns.EmptyExplainableObject) else ("E",)
+        if p[0] != "H":
+            return {}
+        df = v.value
+        f = efx._base_factor(ns, df.dtypes.iloc[0].units)
+        return {int(t) // (60 * 10 ** 9): float(x) * f for t, x in zip(df.index.asi8, df["value"].values._data)}
+    for k in range(n):
+        model = gen.random_model(rng)
+        ups = efx.names_of(model, "UsagePattern")
+        cs = efx.names_of(model, "Country")
+        if len(ups) >= 2:
+            # two usage patterns on one journey, in countries whose offsets differ by a fraction of an hour
+            model[ups[1]]["lnk"]["usage_journey"] = model[ups[0]]["lnk"]["usage_journey"]
+            if len(cs) >= 2:
+                model[ups[0]]["lnk"]["country"], model[ups[1]]["lnk"]["country"] = cs[0], cs[1]
+                model[cs[0]]["opt"]["tz"] = rng.choice(["Europe/Paris", "UTC", "America/New_York"])
+                model[cs[1]]["opt"]["tz"] = rng.choice(["Asia/Kolkata", "Asia/Kathmandu", "Australia/Lord_Howe"])
+        try:
+            live = efx.build(ns, model)
+        except Exception:
+            continue
+        for j in sorted(efx.names_of(model, "Job")):
+            if j not in efx.reachable(model):
+                continue
+            for per_a, across_a in pairs:
+                per = {getattr(u_, "name", str(u_)): ser(x) for u_, x in getattr(live[j], per_a).items()}
+                across = ser(getattr(live[j], across_a))
+                vals = [abs(x) for d in list(per.values()) + [across] for x in d.values()]
+                m = max(vals + [0.0])
+                e10 = (int(math.floor(math.log10(m))) - 6) if m > 0 else 0
+                sc = lambda d: {"t": sorted(d), "v": [int(round(d[t] / 10 ** e10)) for t in sorted(d)]}
+                events.append({"tid": tid0 + k, "seq": len(events), "ev": "AcrossSums", "job": j, "attr": across_a,
+                               "per": [sc(per[u_]) for u_ in sorted(per)], "across": sc(across),
+                               "zones": sorted({model[c]["opt"]["tz"] for c in cs})})
+    return events
+
+
 def run(tier, out):
     wd = work_dir("c03")
     try:
@@ -62,6 +113,8 @@ def run(tier, out):
             e["tid"] += 4 * 10 ** 6
         events += edited
         events += call_events(ns, random.Random(base + 7), n_calls, 10 ** 6)
+        acr = across_events(ns, random.Random(base + 9), 12 if tier == "quick" else 200, 6 * 10 ** 6)
+        events += acr
         fails, _notes, res = numcheck.validate(wd, events, focus=USAGE_KINDS)
         out.add_tlc(res, "Trace_Numeric: usage kinds of lattice systems + direct calls")
         built = [e for e in events if e["ev"] == "Model" and e["raised"] == "none"]
@@ -70,6 +123,8 @@ def run(tier, out):
         for e in events:
             if e["ev"] == "Model":
                 out.nontrivial.add(("model", e["seed"]))
+            elif e["ev"] == "AcrossSums":
+                out.nontrivial.add(("across", e["tid"], e["job"], e["attr"]))
             else:
                 out.nontrivial.add(("call", e["fn"], e["dur"], e["tph"], str(e["arg"])))
         numcheck.judge(out, events, fails)
@@ -77,6 +132,7 @@ def run(tier, out):
             out.sample({"seed": e["seed"], "I": {k: e["I"][k] for k in ("t", "job", "up")},
                         "observed": [o for o in e["obs"] if o["k"] in ("occ", "avg4")][:3]})
         out.sample([e for e in events if e["ev"] == "Call"][0])
+        out.extra["across_usage_pattern_sums_checked"] = len(acr)
         out.extra.update({"rule": "a case = one real system built from lattice inputs (every usage value compared exactly "
                                   "with the TLA+ transcription, conservation theorems evaluated on the observed values) or "
                                   "one direct call of a building block on a minute/second/millisecond lattice; distinct by "
